@@ -5,6 +5,8 @@ import os
 
 V = os.path.dirname(os.path.dirname(os.path.abspath(__file__)))
 
+FIXES = ['da09844 fix: loop iterations are ordered numerically, not as strings', '57a5672 fix: multi-line key-output descriptions keep output.txt parsable', 'c40342c fix: output.txt is converted to JSON without configparser interpolation', 'e963c27 fix: error description read back from status.txt keeps its outer whitespace', '0d4bbfc fix: Status.writeToStream escapes a copy of the error description', '5cdb903 fix: status_details.json is not replaced by a partially written temporary file', 'e4f1411 fix: instance description and manifest are replaced atomically', 'd84b6cf fix: user variable files are layered in the order given', '89bfe12 fix: resubmission cap also applies when SubmissionFailed is listed in restartHookOn', '0c051f0 fix: a component receives exactly one final state', '9e3a59a fix: controller ignores a POSTMORTEM notification whose engine is alive again', '98a674a fix: ComponentState publishes snapshots of its state, not the live dictionary', 'd4798f8 fix: repeating engine that never launched observes its finished producers once', 'd4a57bc fix: repeating engine honours kill-after-producers-done-delay between executions']
+
 E1_NOTE = ("trusted base: sim/kernel.py (baton-passing scheduler, virtual clock) faithfully replaces threading/time/"
            "datetime/ThreadPoolExecutor; the scripted SimTask stands for every backend; pre-emption at synchronisation "
            "points and (a share of runs) at function entries/lines of the runtime modules; sampled, not exhaustive")
@@ -102,6 +104,9 @@ NOT_APPLICABLE = {
 PENDING = {}
 
 
+FIX_NOTE = ('see DESIGN.md (section 8 = as built). No hook commits exist in /repo (all seams are monkeypatches); /repo carries %d unguarded fix: commits for genuine defects found by these checks (listed as "fixed:" in known_findings.json, which also holds the open findings printed as KNOWN-FINDING): ' % len(FIXES)) + '; '.join(FIXES)
+
+
 def main():
     checks = []
     for pid in sorted(CHECKS):
@@ -122,6 +127,7 @@ def main():
     na = [{'property_id': k, 'reason': v} for k, v in sorted({**NOT_APPLICABLE, **PENDING}.items())]
     m = json.load(open(os.path.join(V, 'MANIFEST.json')))
     m['checks'] = checks
+    m['notes'] = FIX_NOTE
     m['not_applicable'] = na
     with open(os.path.join(V, 'MANIFEST.json'), 'w') as f:
         json.dump(m, f, indent=1)
